@@ -79,6 +79,14 @@ PROPS = {
         "not_covered": ["BOUNDED only (replay/gate_driver on the real crate, never counted as proved): Gate::connect / Connection::next_hop / path_iter - chains of 1..6 hops connected in any order and orientation enumerate g0..gk forward and as the exact mirror image backward, a connected pair can be connected again without effect, a gate with two peers refuses a third; end to end: a message sent on either endpoint gate is delivered exactly once to the owner of the far end at send time + sum over the hops of (latency + size*8/bitrate), with sender id, receiver id and final gate in the header",
                         "(not proved) Gate::connect, Connection::next_hop, PathIter, send / send_in / buf_send_at, HandleMessageEvent::handle (receiver id stamp), messages towards inactive modules (C09)"],
     },
+    "C09": {
+        "bundles": ["shutdownflow", "gatewalk"],
+        "fns": {"shutdownflow": ["buf_process"], "gatewalk": ["MessageExitingConnection::handle_with_sink"]},
+        "assumptions": ["unit shutdownflow: ghost step log written at the real call sites of buf_process; every callee is a shim with an assumed frame (global event buffer behind a mutex -> buf_lock / flush_events, the request flag behind an RwLock -> take_shutdown_request = the module's pending request, atomics / tokio runtime -> mark_inactive / shutdown_tasks, Runtime::add_event recorded not interpreted, user code behind reset()); tracing statements dropped (R18), the cfg attribute of the enabled feature `async` dropped (R18b)",
+                        "unit gatewalk (shared with C08): the clause tagged C09 - a message standing at a gate whose owner is inactive is dropped, nothing is scheduled - under the assumed route contract of Connection::next_hop"],
+        "not_covered": ["BOUNDED only (replay/shutdown_driver on the real crate, never counted as proved): from the end of the requesting event until the restart no handler, task or timer of the module runs (also not later), messages addressed to it or passing its gates in that window are dropped for good, Module::reset runs exactly once, the start-up stages run exactly once more at exactly the restart time, afterwards the module behaves like a freshly started one (new tasks tick, messages are handled), and the other modules and links are unaffected",
+                        "(not proved) ModuleRef::{handle_message, async_wakeup, module_restart, reset} (RefCell / atomics behind &self, tokio harness), AsyncExt::reset and the tokio runtime shutdown, ModuleRestartEvent::handle, the shutdown API that sets the flag"],
+    },
     "C19": {
         "bundles": ["topology"],
         "fns": {"topology": ["Topology::bidirectional", "Topology::connected", "Topology::connected::visit"]},
